@@ -119,3 +119,162 @@ func TestC04_NilErrorEnding(t *testing.T) {
 		}
 	}
 }
+
+// The same for the multi-source operators: one source ends with an error while the
+// others are still open (hot sources, one notification at a time).
+func TestC05_NilErrorEnding(t *testing.T) {
+	idx := 0
+	for ri := range mrows {
+		row := &mrows[ri]
+		if row.Family == "concat" {
+			continue // Subscribe waits for the first source: covered by C15's attempt sequences
+		}
+		k := 2
+		ok := false
+		for _, kk := range row.K {
+			if kk == 2 {
+				ok = true
+			}
+		}
+		if !ok {
+			k = row.K[len(row.K)-1]
+		}
+		for failing := 0; failing < k; failing++ {
+			for _, before := range []int{0, 1} {
+				idx++
+				run := func(v int) (vals []any, end byte, pan any) {
+					rt.NewSink()
+					srcs := make([]*rt.ManualSrc, k)
+					obss := make([]ro.Observable[int], k)
+					for i := range srcs {
+						srcs[i] = rt.NewManual(fmt.Sprintf("S%d", i), rt.CtorUnsafeCtx)
+						obss[i] = srcs[i].Observable()
+					}
+					rec := rt.NewRecorder[any]()
+					func() {
+						defer func() { pan = recover() }()
+						sub := row.Build(obss).Subscribe(rec)
+						for i := range srcs {
+							for j := 0; j < before; j++ {
+								srcs[i].Emit(rt.N(10*i + j + 1))
+							}
+						}
+						srcs[failing].Emit(rt.Ev{K: 'E', V: v})
+						sub.Unsubscribe()
+					}()
+					tr := rec.Trace()
+					for _, x := range tr.Vals {
+						vals = append(vals, cat.Norm(x))
+					}
+					return vals, tr.End, pan
+				}
+				v1, e1, p1 := run(1)
+				v2, e2, p2 := run(rt.NilErrV)
+				c := map[string]any{"op": row.Name, "k": k, "failing_source": failing, "values_before": before}
+				if p2 != nil && p1 == nil {
+					rt.Report(t, rt.Failure{Property: "C05", Check: "nil-error-ending", Op: row.Name, Class: "panic-escaped", Msg: fmt.Sprintf("%s, source %d ends with Error(nil): %v", row.Name, failing, p2), Case: c})
+				} else if !(len(v1) == 0 && len(v2) == 0) && !reflect.DeepEqual(v1, v2) || e1 != e2 {
+					rt.Report(t, rt.Failure{Property: "C05", Check: "nil-error-ending", Op: row.Name, Class: "error-with-nil-value-treated-differently", Msg: fmt.Sprintf("%s(k=%d), source %d fails after %d value(s) per source: with Error(e) the output is %v ending %q, with Error(nil) it is %v ending %q", row.Name, k, failing, before, v1, e1, v2, e2), Case: c})
+				}
+				rt.Case(caseKey("nilerr-multi", row.Name, k, failing, before), true, "nil-error:"+row.Family, func() any { return c })
+			}
+		}
+	}
+}
+
+// ... and for the re-subscribing / fallback operators of C15, where "did the
+// attempt fail?" decides what happens next.
+func TestC15_NilErrorEnding(t *testing.T) {
+	failing := func(n int, nilErr bool, subs *int) ro.Observable[int] {
+		return ro.NewUnsafeObservable(func(d ro.Observer[int]) ro.Teardown {
+			*subs++
+			for i := 1; i <= n; i++ {
+				d.Next(i)
+			}
+			if nilErr {
+				d.Error(nil)
+			} else {
+				d.Error(rt.Err(1))
+			}
+			return nil
+		})
+	}
+	ops := map[string]func(src ro.Observable[int]) ro.Observable[int]{
+		"Retry(2)": func(s ro.Observable[int]) ro.Observable[int] {
+			return ro.RetryWithConfig[int](ro.RetryConfig{MaxRetries: 2})(s)
+		},
+		"Retry(2,ResetOnSuccess)": func(s ro.Observable[int]) ro.Observable[int] {
+			return ro.RetryWithConfig[int](ro.RetryConfig{MaxRetries: 2, ResetOnSuccess: false})(s)
+		},
+		"RepeatWith(2)": func(s ro.Observable[int]) ro.Observable[int] { return ro.RepeatWith[int](2)(s) },
+		"DoWhile(true,true,false)": func(s ro.Observable[int]) ro.Observable[int] {
+			n := 0
+			return ro.DoWhile[int](func() bool { n++; return n < 3 })(s)
+		},
+		"While(true,true,false)": func(s ro.Observable[int]) ro.Observable[int] {
+			n := 0
+			return ro.While[int](func() bool { n++; return n < 3 })(s)
+		},
+		"Catch(Just 7)": func(s ro.Observable[int]) ro.Observable[int] {
+			return ro.Catch(func(error) ro.Observable[int] { return ro.Just(7) })(s)
+		},
+		"OnErrorResumeNextWith(Just 7)":  func(s ro.Observable[int]) ro.Observable[int] { return ro.OnErrorResumeNextWith(ro.Just(7))(s) },
+		"OnErrorResumeNextWith(failing)": func(s ro.Observable[int]) ro.Observable[int] { return ro.OnErrorResumeNextWith(s)(ro.Just(5)) },
+		"OnErrorReturn(9)":               func(s ro.Observable[int]) ro.Observable[int] { return ro.OnErrorReturn(9)(s) },
+		"Concat(failing, Just 7)":        func(s ro.Observable[int]) ro.Observable[int] { return ro.Concat(s, ro.Just(7)) },
+		"ConcatWith":                     func(s ro.Observable[int]) ro.Observable[int] { return ro.ConcatWith(ro.Just(7))(s) },
+		"FlatMap(failing inner)": func(s ro.Observable[int]) ro.Observable[int] {
+			return ro.FlatMap(func(int) ro.Observable[int] { return s })(ro.Just(1, 2))
+		},
+		"MergeMap(failing inner)": func(s ro.Observable[int]) ro.Observable[int] {
+			return ro.MergeMap(func(int) ro.Observable[int] { return s })(ro.Just(1, 2))
+		},
+		"TakeUntil(failing)": func(s ro.Observable[int]) ro.Observable[int] { return ro.TakeUntil[int, struct{}](ro.Never())(s) },
+		"Timeout":            func(s ro.Observable[int]) ro.Observable[int] { return ro.Timeout[int](time.Hour)(s) },
+		"Delay":              func(s ro.Observable[int]) ro.Observable[int] { return ro.Delay[int](time.Millisecond)(s) },
+		"ObserveOn":          func(s ro.Observable[int]) ro.Observable[int] { return ro.ObserveOn[int](2)(s) },
+		"Materialize|Dematerialize": func(s ro.Observable[int]) ro.Observable[int] {
+			return ro.Dematerialize[int]()(ro.Materialize[int]()(s))
+		},
+		"Share":          func(s ro.Observable[int]) ro.Observable[int] { return ro.Share[int]()(s) },
+		"ShareReplay(1)": func(s ro.Observable[int]) ro.Observable[int] { return ro.ShareReplay[int](1)(s) },
+	}
+	for name, build := range ops {
+		for _, n := range []int{0, 2} {
+			run := func(nilErr bool) (vals []any, end byte, subs int, pan any, returned bool) {
+				rt.NewSink()
+				rec := rt.NewRecorder[int]()
+				done := make(chan struct{})
+				go func() {
+					defer close(done)
+					defer func() { pan = recover() }()
+					sub := build(failing(n, nilErr, &subs)).Subscribe(rec)
+					sub.Wait()
+				}()
+				select {
+				case <-done:
+					returned = true
+				case <-time.After(3 * time.Second):
+				}
+				tr := rec.Trace()
+				return tr.Vals, tr.End, subs, pan, returned
+			}
+			v1, e1, s1, p1, r1 := run(false)
+			if p1 != nil || !r1 {
+				continue
+			}
+			v2, e2, s2, p2, r2 := run(true)
+			c := map[string]any{"op": name, "values_per_attempt": n}
+			desc := fmt.Sprintf("%s over a source delivering %d value(s) and then failing", name, n)
+			switch {
+			case p2 != nil:
+				rt.Report(t, rt.Failure{Property: "C15", Check: "nil-error-ending", Op: name, Class: "panic-escaped", Msg: fmt.Sprintf("%s with Error(nil): %v", desc, p2), Case: c})
+			case !r2:
+				rt.Report(t, rt.Failure{Property: "C15", Check: "nil-error-ending", Op: name, Class: "stream-never-terminates", Msg: fmt.Sprintf("%s: with Error(e) the stream ends (%v, %q) and Wait returns; with Error(nil) Wait is still blocked after 3s (output so far %v, ending %q)", desc, v1, e1, v2, e2), Case: c})
+			case !(len(v1) == 0 && len(v2) == 0) && !reflect.DeepEqual(v1, v2) || e1 != e2 || s1 != s2:
+				rt.Report(t, rt.Failure{Property: "C15", Check: "nil-error-ending", Op: name, Class: "error-with-nil-value-treated-differently", Msg: fmt.Sprintf("%s: with Error(e): output %v ending %q after %d subscriptions of the source; with Error(nil): %v ending %q after %d", desc, v1, e1, s1, v2, e2, s2), Case: c})
+			}
+			rt.Case(caseKey("nilerr-c15", name, n), true, "nil-error", func() any { return c })
+		}
+	}
+}
